@@ -1307,6 +1307,11 @@ def rand_c14(seed, tier, cases=None):
     for order in ((False, True, False), (True, False, True)):
         calls = [dict(units=[unit(32, 6), unit(33, 5), unit(19, 20 + j)], scs=[4, 4, 4], skipagg_now=m) for j, m in enumerate(order)]
         out.append(dict(fam="C14", kind="payload", valid=True, mtu=100, donl=False, skipagg=order[0], calls=calls, **{"class": "skipagg_option_flipped"}))
+    # ... and so is AddDONL: every call fragments one unit and aggregates two, with the option as it is at that moment
+    for mtu in (20, 100):
+        for order in ((True, False, True, False), (False, True, False, False)):
+            calls = [dict(units=[unit(32, 6), unit(33, 5), unit(19, 2 * mtu + 3 + j)], scs=[4, 4, 4], donl_now=m) for j, m in enumerate(order)]
+            out.append(dict(fam="C14", kind="payload", valid=True, mtu=mtu, donl=order[0], skipagg=False, calls=calls, **{"class": "donl_option_flipped"}))
     # one unit of about 17 MB (beyond 2^24 bytes) through payloader and receiver (lengths and equality facts only)
     for mtu in (65535, 1200):
         out.append(dict(fam="C14", kind="huge", huge=17000000, mtu=mtu, valid=True, **{"class": "huge_unit_17MB"}))
